@@ -787,3 +787,76 @@ def run_scenarios(ctx, res, fn, n, tag, **kw):
         rng = common.rng_for(ctx.seed, f"{tag}:{i}")
         fn(ctx, res, rng, i, **kw)
         res.stat("scenario_" + tag)
+
+
+# ---------------------------------------------------------------------------------------------
+# (d) process level: the same stream contract over a REAL popen gateway with real OS threads
+# ---------------------------------------------------------------------------------------------
+REMOTE_STREAM = """
+spec = channel.receive()
+n_out, echo = spec
+for i in range(n_out):
+    channel.send(("B", i, b"x" * (i % 7 * 1000)))
+if echo:
+    for item in channel:
+        if item == "fin":
+            break
+        channel.send(("echo", item))
+"""
+
+
+def process_level_streams(ctx, res, nconv=4, spec="popen"):
+    """several conversations on one real gateway, one real sender and one real receiver thread each"""
+    import threading
+
+    execnet = ctx.execnet
+    rng = ctx.rng("proc-streams")
+    group = execnet.Group()
+    problems = []
+    try:
+        gw = group.makegateway(spec)
+        plans = [(rng.choice([0, 5, 40]), rng.choice([0, 3, 25])) for _ in range(nconv)]
+        chans = []
+        got = [[] for _ in plans]
+        for (n_out, n_in) in plans:
+            ch = gw.remote_exec(REMOTE_STREAM)
+            ch.send((n_out, n_in > 0))
+            chans.append(ch)
+
+        def sender(ch, n):
+            for i in range(n):
+                ch.send(("A", i, b"y" * (i % 5 * 3000)))
+            if n:
+                ch.send("fin")
+
+        def receiver(ch, out):
+            try:
+                while True:
+                    out.append(ch.receive(30))
+            except EOFError:
+                out.append("EOF")
+            except Exception as e:  # noqa: BLE001
+                out.append(("EXC", repr(e)))
+
+        threads = []
+        for ch, (n_out, n_in), out in zip(chans, plans, got):
+            threads.append(threading.Thread(target=receiver, args=(ch, out), daemon=True))
+            threads.append(threading.Thread(target=sender, args=(ch, n_in), daemon=True))
+        for t in threads:
+            t.start()
+        for t in threads:
+            t.join(60)
+            if t.is_alive():
+                problems.append("a thread hung on the real gateway")
+        for k, ((n_out, n_in), out) in enumerate(zip(plans, got)):
+            exp = [("B", i, b"x" * (i % 7 * 1000)) for i in range(n_out)] + [("echo", ("A", i, b"y" * (i % 5 * 3000))) for i in range(n_in)] + ["EOF"]
+            if out != exp:
+                problems.append(f"conversation {k} over a real {spec} gateway: received {len(out) - 1} items, expected {len(exp) - 1} (order/dup/loss/leak)")
+        res.count(("proc-streams", spec, repr(plans)))
+        res.stat("process_level_runs")
+    except Exception as e:  # noqa: BLE001
+        problems.append("process-level run failed: %r" % (e,))
+    finally:
+        group.terminate(timeout=3.0)
+    for p in problems:
+        res.violations.append(dict(case={"scenario": "process-streams", "spec": spec}, what=p))
